@@ -97,7 +97,11 @@ def state_machine(rep, traces, prop):
     good = next((t for t in st_traces if verd.get(t["id"], {}).get("status") == "OK" and t["kind"] == "rtu" and len(t["txns"]) >= 2
                  and all(x["how"] == 1 and len(x["states"]) >= 3 for x in t["txns"][:2])), None)
     if good is None:
-        raise MachineryError("ClientState self-test: no accepted RTU history with two returned calls")
+        # (no such history in this run: the textbook walk - send, wait, process, complete; settle, send, wait, process, complete)
+        good = {"id": "syn", "kind": "rtu", "txns": [{"s0": 0, "states": [1, 2, 4, 6], "how": 1}, {"s0": 6, "states": [0, 1, 2, 4, 6], "how": 1}]}
+        gv, _ = validate_traces("ClientStateTrace", "ClientStateTrace.cfg", [good], shards=1)
+        if gv["syn"]["status"] != "OK":
+            raise MachineryError("ClientState self-test: the textbook walk is rejected")
     forged = []
     m = copy.deepcopy(good)
     m["id"] = "st1"
